@@ -369,8 +369,10 @@ type synCase struct {
 	// (there is a UAX #14 break opportunity between any two glyphs, also inside a run).
 	Split int `json:"split"`
 	// WSMask bit k set: the glyph of rune (cluster) k of the paragraph is whitespace (Width 0).
-	WSMask      uint `json:"ws_mask"`
-	DisableTrim bool `json:"disable_trim"`
+	WSMask uint `json:"ws_mask"`
+	// WSList: further whitespace runes (paragraphs of more than 64 runes).
+	WSList      []int `json:"ws_list,omitempty"`
+	DisableTrim bool  `json:"disable_trim"`
 	// TruncOpp: the truncator run has the direction opposite to the paragraph's.
 	TruncOpp bool `json:"trunc_opposite,omitempty"`
 	// WrapParagraph: use LineWrapper.WrapParagraph with the first-line width for every line
@@ -378,9 +380,23 @@ type synCase struct {
 	WrapParagraph bool `json:"wrap_paragraph"`
 }
 
+// isWS tells whether the glyph of rune k is whitespace.
+func (c *synCase) wsSet() func(k int) bool {
+	var list map[int]bool
+	if len(c.WSList) > 0 {
+		list = make(map[int]bool, len(c.WSList))
+		for _, k := range c.WSList {
+			list[k] = true
+		}
+	}
+	mask := c.WSMask
+	return func(k int) bool { return k >= 0 && k < 64 && mask>>uint(k)&1 == 1 || list[k] }
+}
+
 // synRuns builds the runs, the paragraph text and the embedding level of every rune.
 func synRuns(c synCase) (runs []shaping.Output, text []rune, runeLevels []int) {
 	n := len(c.Levels)
+	isWS := c.wsSet()
 	runs = make([]shaping.Output, n)
 	off := 0
 	for i, lv := range c.Levels {
@@ -396,7 +412,7 @@ func synRuns(c synCase) (runs []shaping.Output, text []rune, runeLevels []int) {
 				cluster = off + k - 1 - j
 			}
 			w := fixed.I(8)
-			if c.WSMask>>uint(cluster)&1 == 1 {
+			if isWS(cluster) {
 				w = 0
 			}
 			glyphs[j] = shaping.Glyph{
@@ -451,6 +467,7 @@ func runSynthetic(t ev.TB, c synCase) (nontrivial bool) {
 	}
 	runs, text, runeLevels := synRuns(c)
 	nRunes := len(text)
+	isWS := c.wsSet()
 	trunc := shaping.Output{
 		Advance: fixed.I(synAdv), Size: fixed.I(16), Direction: dirOf(c.ParaRTL != c.TruncOpp),
 		Glyphs:      []shaping.Glyph{{Width: fixed.I(8), XAdvance: fixed.I(synAdv), GlyphID: synTruncGID, GlyphCount: 1}},
@@ -484,7 +501,7 @@ func runSynthetic(t ev.TB, c synCase) (nontrivial bool) {
 			if cluster < 0 || cluster >= nRunes {
 				return 0, false, false
 			}
-			return fixed.I(synAdv), c.WSMask>>uint(cluster)&1 == 1, true
+			return fixed.I(synAdv), isWS(cluster), true
 		},
 		trim: !c.DisableTrim,
 		tag:  "syn",
@@ -525,6 +542,18 @@ func runSynthetic(t ev.TB, c synCase) (nontrivial bool) {
 			}
 			if c.Glyphs != nil && len(wl.Line) == 1 && (wl.Line[0].Direction.Progression() == di.TowardTopLeft) != c.ParaRTL {
 				ev.Label("syn_multi_line_lone_opposite_run")
+			}
+			switch m := len(wl.Line); {
+			case m > 100:
+				ev.Label("syn_line_runs>100")
+			case m > 64:
+				ev.Label("syn_line_runs=65..100")
+			case m > 32:
+				ev.Label("syn_line_runs=33..64")
+			case m > 16:
+				ev.Label("syn_line_runs=17..32")
+			case m > 7:
+				ev.Label("syn_line_runs=8..16")
 			}
 		}
 		if done {
@@ -761,6 +790,94 @@ func TestPropSyntheticMulti(t *testing.T) {
 	}
 }
 
+// TestPropSyntheticLong: sizes beyond the internal constants of the wrapper. Seeded samples of
+// level sequences with many runs per line: 8..80 runs and the sizes around 16, 32, 64 and 100
+// (the capacity of the wrapper's line buffer), single- and multi-glyph runs, two-level and
+// four-level sequences with persistent stretches, one line and split lines, truncator
+// off/appended (either direction)/truncating, both paragraph directions, both wrapping APIs.
+func TestPropSyntheticLong(t *testing.T) {
+	shard, nshards := ev.Shard()
+	var sizes []int
+	special := []int{15, 16, 17, 18, 31, 32, 33, 63, 64, 65, 99, 100, 101, 130}
+	for rep := 0; rep < ev.Scale(30, 100); rep++ {
+		sizes = append(sizes, special...)
+	}
+	rng := ev.NewRand(uint64(ev.Seed())*0x51ED2701 + 5)
+	for i := 0; i < ev.Scale(1000, 5000); i++ {
+		sizes = append(sizes, 8+rng.Intn(73))
+	}
+	for si, n := range sizes {
+		r := rng2(ev.Seed(), -7, si, n)
+		if si%nshards != shard {
+			continue
+		}
+		rtl := r.Intn(2) == 1
+		e := 0
+		if rtl {
+			e = 1
+		}
+		span := 4 - e // levels e..3
+		if r.Intn(2) == 0 {
+			span = 2 // levels e, e+1: nothing deep, the true-level clause decides every line
+		}
+		multi := r.Intn(2) == 0 && n <= 80
+		lv := make([]int, n)
+		var counts []int
+		if multi {
+			counts = make([]int, n)
+		}
+		g := 0
+		for i := range lv {
+			if i > 0 && r.Intn(2) == 0 {
+				lv[i] = lv[i-1]
+			} else {
+				lv[i] = e + r.Intn(span)
+			}
+			k := 1
+			if multi {
+				k = 1 + r.Intn(3)
+				counts[i] = k
+			}
+			g += k
+		}
+		base := synCase{ParaRTL: rtl, Levels: lv, Glyphs: counts}
+		all := r.Intn(4) == 0
+		for k := 0; k < g; k++ {
+			if all || r.Intn(4) == 0 {
+				if k < 64 {
+					base.WSMask |= 1 << uint(k)
+				} else {
+					base.WSList = append(base.WSList, k)
+				}
+			}
+		}
+		run := func(c synCase) {
+			ev.Case(runSynthetic(t, c), fmt.Sprintf("%+v", c), fmt.Sprintf("syn_long_runs=%d", n/16*16))
+			if ev.WantSample() && n <= 20 {
+				ev.Sample(c)
+			}
+		}
+		for _, wp := range []bool{false, true} {
+			for truncMode := 0; truncMode <= 1; truncMode++ {
+				c := base
+				c.WrapParagraph, c.TruncMode = wp, truncMode
+				run(c)
+				c.Split = 1 + r.Intn(g)
+				run(c)
+			}
+		}
+		c := base
+		c.TruncMode, c.TruncOpp = 1, true
+		run(c)
+		c = base
+		c.TruncMode, c.Split = 2, 1+r.Intn(g)
+		run(c)
+		c.TruncOpp = true
+		c.Split = 1 + r.Intn(g)
+		run(c)
+	}
+}
+
 // rng2 derives an independent deterministic generator for one enumerated item, so that every shard
 // sees the same values whatever part of the space it skips.
 func rng2(seed int64, a, b, c int) *ev.Rand {
@@ -892,20 +1009,26 @@ func runPipeline(t ev.TB, c pipeCase) {
 		harnessBug("empty pipeline case")
 	}
 	classes := make([]uaxref.BidiClass, len(text))
-	firstStrong := uaxref.BidiWS
 	onlyRAndSpace := true
+	hasFormat := false
 	for i, r := range text {
-		cl, ok := uaxref.MiniBidiClass(r)
+		cl, ok := uaxref.MiniBidiClassX(r)
 		if !ok {
 			harnessBug("rune %U outside the mini-UBA classes", r)
 		}
 		classes[i] = cl
-		if firstStrong == uaxref.BidiWS && (cl == uaxref.BidiL || cl == uaxref.BidiR) {
-			firstStrong = cl
-		}
-		if cl == uaxref.BidiL || cl == uaxref.BidiEN {
+		if cl != uaxref.BidiR && cl != uaxref.BidiWS {
 			onlyRAndSpace = false
 		}
+		if uaxref.IsBidiFormat(cl) {
+			hasFormat = true
+		}
+	}
+	// P2/P3: first strong character outside isolates (embedding initiators are skipped, their
+	// content is not)
+	firstStrong := uaxref.BidiL
+	if uaxref.MiniParagraphLevel(classes) == 1 {
+		firstStrong = uaxref.BidiR
 	}
 	// Level at which itemization resolves the paragraph. Segmenter.splitByBidi passes
 	// Input.Direction to x/text as bidi.DefaultDirection: right-to-left forces paragraph level 1,
@@ -918,17 +1041,28 @@ func runPipeline(t ev.TB, c pipeCase) {
 		// Input.Direction = WrapConfig.Direction = LTR but x/text resolves the levels of an RTL
 		// paragraph. With L words or numbers present, the order the levels demand and the order
 		// WrapConfig.Direction demands differ (itemization's business, not generated). With Hebrew
-		// words and spaces only, every rune is at level 1 whichever way the paragraph is read (one
+		// words and spaces only (no formatting), every rune is at level 1 whichever way the paragraph is read (one
 		// right-to-left embedding; the spaces join it because x/text resolves them in an RTL
 		// paragraph), so the run order and, through WrapConfig.Direction, the trimming clause are
 		// well defined: such a paragraph is the "lone opposite-direction run" of an LTR line.
 		if !onlyRAndSpace {
-			harnessBug("LTR paragraph whose first strong character is R and that contains L or EN: %q", string(text))
+			harnessBug("LTR paragraph whose first strong character is R and that contains more than R and spaces: %q", string(text))
 		}
 		e = 1
 		ev.Label("pipe_para_ltr_config_resolved_rtl")
 	}
-	levels := uaxref.MiniBidiLevels(classes, e, true)
+	levels := uaxref.MiniBidiLevelsX(classes, e, true)
+	if hasFormat {
+		ev.Label("pipe_para_with_explicit_formatting")
+	} else {
+		// the two implementations of the mini-UBA must agree on plain text
+		plain := uaxref.MiniBidiLevels(classes, e, true)
+		for i := range plain {
+			if plain[i] != levels[i] {
+				harnessBug("MiniBidiLevels %v and MiniBidiLevelsX %v disagree on %q", plain, levels, string(text))
+			}
+		}
+	}
 	crossCheckXText(text, c.ParaRTL, levels)
 
 	const size = 16
@@ -961,7 +1095,10 @@ func runPipeline(t ev.TB, c pipeCase) {
 			}
 			p.count++
 			p.adv = g.XAdvance
-			isSpace := g.ClusterIndex >= 0 && g.ClusterIndex < len(text) && text[g.ClusterIndex] == ' ' && g.RuneCount == 1
+			// invisible glyphs: U+0020 and the explicit formatting characters (default ignorables,
+			// shaped to an empty glyph without advance)
+			isSpace := g.ClusterIndex >= 0 && g.ClusterIndex < len(text) && g.RuneCount == 1 &&
+				(text[g.ClusterIndex] == ' ' || uaxref.IsBidiFormat(classes[g.ClusterIndex]))
 			p.ws = isSpace
 			if isSpace != (g.Width == 0) {
 				// the wrapper recognises whitespace by an empty glyph; the fonts used satisfy
@@ -1105,7 +1242,120 @@ func (s splitFaces) ResolveFace(r rune) *font.Face {
 	return s.a
 }
 
-// genPipeCase builds a paragraph from units {L word, R word (Hebrew), European number, spaces}.
+// explicit formatting characters
+const (
+	cLRE, cRLE, cPDF, cLRO, cRLO = 0x202A, 0x202B, 0x202C, 0x202D, 0x202E
+	cLRI, cRLI, cFSI, cPDI       = 0x2066, 0x2067, 0x2068, 0x2069
+)
+
+// pgen builds the text of one paragraph.
+type pgen struct {
+	t       *rapid.T
+	text    []rune
+	paraRTL bool
+	// fmtMode 0: no explicit formatting. 1: "shallow": groups whose content stays at paragraph
+	// level + 1 (LTR paragraph: RLO around anything, RLE/RLI/FSI around Hebrew words; RTL paragraph:
+	// LRO around anything, LRE/LRI/FSI around L words), not nested. 2: any initiator around any
+	// content, nested up to depth 2, terminators sometimes missing or of the wrong kind.
+	fmtMode int
+}
+
+func (g *pgen) word(kind int) {
+	t := g.t
+	word := func(alpha [2][]rune, maxLen int, label string) []rune {
+		half := rapid.IntRange(0, 1).Draw(t, label+"_half")
+		return rapid.SliceOfN(rapid.SampledFrom(alpha[half]), 1, maxLen).Draw(t, label)
+	}
+	switch kind {
+	case 0:
+		switch rapid.IntRange(0, 3).Draw(t, "l_script") {
+		case 0:
+			g.text = append(g.text, word(alphaGreek, 4, "greek")...)
+		case 1:
+			g.text = append(g.text, word(alphaCyrillic, 4, "cyrillic")...)
+		default:
+			g.text = append(g.text, word(alphaLatin, 4, "latin")...)
+		}
+	case 1:
+		g.text = append(g.text, word(alphaHebrew, 4, "hebrew")...)
+	default:
+		g.text = append(g.text, word(alphaDigits, 3, "number")...)
+	}
+}
+
+func (g *pgen) sep() {
+	switch rapid.IntRange(0, 9).Draw(g.t, "sep") {
+	case 0, 1: // no separator
+	case 2:
+		g.text = append(g.text, ' ', ' ')
+	default:
+		g.text = append(g.text, ' ')
+	}
+}
+
+// seq emits n units (words, numbers or, with explicit formatting, groups) with separators.
+func (g *pgen) seq(n int, kinds []int, depth int, groups bool) {
+	for i := 0; i < n; i++ {
+		if i > 0 {
+			g.sep()
+		}
+		if groups && rapid.IntRange(0, 3).Draw(g.t, "group") == 0 {
+			g.group(depth)
+			continue
+		}
+		g.word(rapid.SampledFrom(kinds).Draw(g.t, "kind"))
+	}
+}
+
+var allKinds = []int{0, 0, 0, 1, 1, 1, 1, 2, 2, 2}
+
+func (g *pgen) group(depth int) {
+	t := g.t
+	var opener rune
+	kinds := allKinds
+	if g.fmtMode == 1 {
+		if !g.paraRTL {
+			opener = rapid.SampledFrom([]rune{cRLO, cRLO, cRLO, cRLE, cRLI, cFSI}).Draw(t, "opener")
+			if opener == cRLO {
+				// mostly L words of several scripts: right-to-left runs made of left-to-right letters
+				kinds = []int{0, 0, 0, 0, 1, 2}
+			} else {
+				kinds = []int{1}
+			}
+		} else {
+			opener = rapid.SampledFrom([]rune{cLRO, cLRO, cLRO, cLRE, cLRI, cFSI}).Draw(t, "opener")
+			if opener != cLRO {
+				kinds = []int{0}
+			}
+		}
+	} else {
+		opener = rapid.SampledFrom([]rune{cLRE, cRLE, cLRO, cRLO, cLRI, cRLI, cFSI}).Draw(t, "opener")
+	}
+	g.text = append(g.text, opener)
+	if rapid.IntRange(0, 5).Draw(t, "space_after_opener") == 0 {
+		g.text = append(g.text, ' ')
+	}
+	g.seq(rapid.IntRange(1, 4).Draw(t, "group_units"), kinds, depth+1, g.fmtMode == 2 && depth+1 < 2)
+	if rapid.IntRange(0, 5).Draw(t, "space_before_closer") == 0 {
+		g.text = append(g.text, ' ')
+	}
+	closer := rune(cPDF)
+	if opener == cLRI || opener == cRLI || opener == cFSI {
+		closer = cPDI
+	}
+	if g.fmtMode == 2 {
+		switch rapid.IntRange(0, 19).Draw(t, "closer") {
+		case 0, 1:
+			return // not terminated: lasts to the end of the paragraph (or of the enclosing isolate)
+		case 2:
+			closer = cPDF + cPDI - closer // terminator of the other kind: has no effect on this group
+		}
+	}
+	g.text = append(g.text, closer)
+}
+
+// genPipeCase builds a paragraph from units {L word, R word (Hebrew), European number, spaces},
+// optionally grouped by explicit directional formatting characters.
 func genPipeCase(t *rapid.T) pipeCase {
 	if rapid.IntRange(0, 4).Draw(t, "mono") == 0 {
 		return genMonoCase(t)
@@ -1114,67 +1364,42 @@ func genPipeCase(t *rapid.T) pipeCase {
 	c.Font = rapid.SampledFrom(pipeFonts).Draw(t, "font")
 	c.SplitFaces = rapid.Bool().Draw(t, "split_faces")
 	c.ParaRTL = rapid.Bool().Draw(t, "para_rtl")
-	word := func(alpha [2][]rune, maxLen int, label string) []rune {
-		half := rapid.IntRange(0, 1).Draw(t, label+"_half")
-		return rapid.SliceOfN(rapid.SampledFrom(alpha[half]), 1, maxLen).Draw(t, label)
-	}
+	g := &pgen{t: t, paraRTL: c.ParaRTL}
+	g.fmtMode = rapid.SampledFrom([]int{0, 0, 0, 1, 1, 1, 2, 2}).Draw(t, "fmt_mode")
 	nUnits := rapid.IntRange(1, 10).Draw(t, "units")
-	var text []rune
-	type unit struct {
-		kind int
-		r    []rune
+	if rapid.IntRange(0, 9).Draw(t, "many_units") == 0 {
+		// lines with more runs than any internal constant of the wrapper (16, 32)
+		nUnits = rapid.IntRange(11, 40).Draw(t, "units_many")
 	}
-	var units []unit
-	for i := 0; i < nUnits; i++ {
-		// weights: R words and numbers a little more frequent than L words: nesting needs them
-		kind := rapid.SampledFrom([]int{0, 0, 0, 1, 1, 1, 1, 2, 2, 2}).Draw(t, "kind")
-		var r []rune
-		switch kind {
-		case 0:
-			switch rapid.IntRange(0, 3).Draw(t, "l_script") {
-			case 0:
-				r = word(alphaGreek, 4, "greek")
-			case 1:
-				r = word(alphaCyrillic, 4, "cyrillic")
-			default:
-				r = word(alphaLatin, 4, "latin")
-			}
-		case 1:
-			r = word(alphaHebrew, 4, "hebrew")
-		default:
-			r = word(alphaDigits, 3, "number")
-		}
-		units = append(units, unit{kind, r})
-	}
-	if !c.ParaRTL {
-		// construct (not filter): an LTR paragraph starts, as far as strong characters go, with L
-		for _, u := range units {
-			if u.kind == 0 {
-				break
-			}
-			if u.kind == 1 {
-				units = append([]unit{{0, word(alphaLatin, 4, "lead_latin")}}, units...)
-				break
-			}
+	kinds := allKinds
+	if g.fmtMode == 1 && !c.ParaRTL {
+		// keep the top level of a "shallow" LTR paragraph at levels 0 and 1: no numbers (a number
+		// after Hebrew is at level 2), and half of the time no Hebrew at all, so that the only
+		// right-to-left content comes from the explicit formatting
+		kinds = []int{0, 0, 0, 1}
+		if rapid.Bool().Draw(t, "no_hebrew") {
+			kinds = []int{0}
 		}
 	}
 	if rapid.IntRange(0, 9).Draw(t, "lead_space") == 0 {
-		text = append(text, ' ')
+		g.text = append(g.text, ' ')
 	}
-	for i, u := range units {
-		if i > 0 {
-			switch rapid.IntRange(0, 9).Draw(t, "sep") {
-			case 0, 1: // no separator
-			case 2:
-				text = append(text, ' ', ' ')
-			default:
-				text = append(text, ' ')
-			}
-		}
-		text = append(text, u.r...)
-	}
+	g.seq(nUnits, kinds, 0, g.fmtMode > 0)
 	if rapid.IntRange(0, 4).Draw(t, "trail_space") == 0 {
-		text = append(text, ' ')
+		g.text = append(g.text, ' ')
+	}
+	text := g.text
+	if !c.ParaRTL {
+		// construct (not filter): x/text resolves an LTR paragraph only when the first strong
+		// character outside isolates is L (or there is none)
+		classes := make([]uaxref.BidiClass, len(text))
+		for i, r := range text {
+			classes[i], _ = uaxref.MiniBidiClassX(r)
+		}
+		if uaxref.MiniParagraphLevel(classes) == 1 {
+			lead := rapid.SliceOfN(rapid.SampledFrom(alphaLatin[0]), 1, 4).Draw(t, "lead_latin")
+			text = append(append(lead, ' '), text...)
+		}
 	}
 	c.Text = runesToInts(text)
 	// glyph advances are about 10 px at size 16: widths from "one glyph" to "everything on one line"
@@ -1275,6 +1500,11 @@ var knownPipeExamples = []pipeCase{
 	{Font: pipeFonts[0], ParaRTL: false, Text: runesToInts([]rune("  אבג דה ")), Widths: []int{10000}},
 	{Font: pipeFonts[1], ParaRTL: true, Text: runesToInts([]rune("abc de")), Widths: []int{10000}, WrapParagraph: true},
 	{Font: pipeFonts[1], ParaRTL: true, Text: runesToInts([]rune(" abc de ")), Widths: []int{45, 10000}},
+	// explicit formatting: the only right-to-left content comes from an override / embedding / isolate
+	{Font: pipeFonts[0], ParaRTL: false, Text: runesToInts([]rune("ab \u202Ecd эю\u202C gh")), Widths: []int{10000}},
+	{Font: pipeFonts[0], ParaRTL: false, Text: runesToInts([]rune("ab \u2067אב גד\u2069 gh")), Widths: []int{10000}, SplitFaces: true},
+	{Font: pipeFonts[1], ParaRTL: true, Text: runesToInts([]rune("אב \u202Dגד 12 ab\u202C הו")), Widths: []int{70, 10000}},
+	{Font: pipeFonts[1], ParaRTL: true, Text: runesToInts([]rune("אב \u202Aab \u202Eγδ cd\u202C ef\u202C 34")), Widths: []int{10000}},
 }
 
 // TestPropExamples runs the fixed examples (part of the synthetic job).
